@@ -298,6 +298,16 @@ def generate(rng, tier):
     # first digit - never a highlight that starts inside the digit run
     for l in ["100:30", "123:45 + 1", "25:30", "1234:56:78", "99:99", "7:5", "2021:12", "250:15 * 2"]:
         cases.append(mk(l, "en", "digits-colon"))
+    # a number with a glued word (`5kg`: the number parser reports the suffix as a symbol) followed LATER on the line by a
+    # token that an earlier parser registered (comment, percent, time, money, based literal): the text parser's token for
+    # the suffix must still be rejected although the token list is not ordered by start at that moment
+    for l in ["5kg # c", "3m + %10", "5kg + 0x10", "5kg 10:30", "ağırlık = 5kg # ş", "5kg", "5kg + 3", "12abc 50% # x", "7xyz $5",
+              "2kg 3kg # iki", "9qq 0b11 + 12:30 est", "4zz + 10 usd # n"]:
+        cases.append(mk(l, "en", "glued-suffix"))
+    for _ in range(10 if tier == "quick" else 120):
+        head = "%d%s" % (rng.randint(1, 999), rng.choice(["kg", "m", "abc", "zz", "çay", "x"]))
+        tail = rng.choice(["# c", "%10", "0x10", "10:30", "$5", "50%", "12:30 est", "0b101", "10 usd", "# ö 5"])
+        cases.append(mk(head + rng.choice([" ", " + ", "  "]) + tail, "en", "glued-suffix"))
     # month / zone words after text whose case image changes length (known finding C17-casemap)
     for l, lang in [("ıııı est 12:30", "en"), ("İİİ 5 march 2020", "en"), ("İİ march 5", "en"), ("ǰǰ est 12:30", "en"),
                     ("İİİ 5 mart", "tr"), ("KK 12:30 est", "en"), ("ſſſ gmt 10:00", "en")]:
